@@ -311,3 +311,25 @@ func vh_tcp_arbitrary() {
 		vreach("dropped")
 	}
 }
+
+// O4 (exactness): a cookie is accepted only if it is bit-for-bit the cookie the listener
+// would create for the data it returns, in the time slot embedded in it.
+func vh_cookie_exact() {
+	c := vhEP(1<<16, 1<<16)
+	_, ctx := c.vhListener()
+	id := stack.TransportEndpointID{LocalPort: vnU16("lport"), LocalAddress: vhLocal, RemotePort: vnU16("rport"), RemoteAddress: vhRemote}
+	cookie := seqnum.Value(vnU32("cookie"))
+	seq := seqnum.Value(vnU32("seq"))
+	got, ok := ctx.isCookieValid(id, cookie, seq)
+	if ok {
+		h0 := ctx.cookieHash(id, 0, 0)
+		v := uint32(cookie) - h0 - uint32(seq)
+		cts := v >> tsOffset
+		want := h0 + uint32(seq) + (cts << tsOffset) + ((ctx.cookieHash(id, cts, 1) + got) & hashMask)
+		vassert(got <= hashMask, "the recovered data fits the cookie's data field")
+		vassert(uint32(cookie) == want, "a cookie is accepted only if it is exactly the cookie the listener would create for the returned data in its embedded time slot (all 24 hash bits are verified)")
+		vreach("valid")
+	} else {
+		vreach("invalid")
+	}
+}
